@@ -54,6 +54,7 @@ type Scenario struct {
 	SharedMode string     `json:"shared_mode,omitempty"` // mode of the second graph (par | serial)
 	Shared2    bool       `json:"shared2,omitempty"`     // the second graph is made of the second Task objects (the ones add2 hands to the first graph)
 	Rerun      bool       `json:"rerun,omitempty"`       // call Run a second time on the same graph
+	SortOnly   bool       `json:"sort_only,omitempty"`   // the history (with its DepthFirstSort calls) is everything: no final Run
 	History    bool       `json:"history,omitempty"`     // construction-history scenario (C16a): edges are whatever the history declares
 	Canon      bool       `json:"canon,omitempty"`       // the graph is the representative of its isomorphism class
 	Light      int        `json:"light,omitempty"`       // larger graph: 1 = explored with at most one deviation in total, 2 = default schedule and all completion orders only
@@ -94,6 +95,9 @@ func (sc *Scenario) String() string {
 	}
 	if sc.Rerun {
 		s += " rerun"
+	}
+	if sc.SortOnly {
+		s += " (no Run)"
 	}
 	return s
 }
@@ -681,6 +685,9 @@ func (r *run) main() {
 		}
 	}
 	r.m = full
+	if sc.SortOnly {
+		return
+	}
 	if len(sc.Shared) > 0 {
 		g2 := dag.NewGraph("g2")
 		if sc.SharedMode == "serial" {
@@ -933,6 +940,9 @@ func (r *run) final(res *verifrt.Result) {
 			r.fail("C16", "Run does not finish (%s): %s", res.Status, res.Detail)
 			return
 		}
+	}
+	if sc.SortOnly {
+		return
 	}
 	err := r.runErr[0]
 	var errs *dag.Errors
